@@ -329,6 +329,10 @@ def run(ctx):
         uninstall()
     if ctx.shard == 0:
         concurrent_calls(ctx, P, PP, ctx.rng)
+        # the outcome is a function of the arguments, the default and the *current* process time zone: switching TZ between
+        # calls (same abbreviations, other offsets) must not leave anything behind in the module-level or an instance parser
+        from vf.checks import c15
+        c15.wl_tz_switch(ctx, P, tz)
 
 
 CONC_TEXTS = ['1999.12.31 23:59', 'Sep 25 2003 10:36:28', '2003-09-25T10:49:41.5-03:00', 'Thu, 25 Sep 2003 10:49:41 -0300', '10h36m28.5s',
@@ -459,7 +463,9 @@ def long_inputs(ctx, st, lc, P, rng):
 
 
 def non_text(ctx, st, P):
-    for arg in (None, 5, 5.5, [], {}, object(), D.datetime(2000, 1, 1), D.date(2000, 1, 1), ('2000',), 2000 ** 5, True):
+    import array
+    for arg in (None, 5, 5.5, [], {}, object(), D.datetime(2000, 1, 1), D.date(2000, 1, 1), ('2000',), 2000 ** 5, True,
+                memoryview(b'2003-09-25'), array.array('b', b'2003'), {'2003'}, frozenset(), 1j, range(3), Ellipsis, type):
         ctx.ev()
         ctx.count('non_text_calls')
         st.bad = None
